@@ -419,15 +419,17 @@ impl Harness for C19 {
         }
     }
 
-    fn generate(&self, rng: &mut Rng, tier: Tier, index: u64) -> Scenario {
+    fn generate(&self, rng: &mut Rng, tier: Tier, _index: u64) -> Scenario {
         let limit = *rng.pick(&[64u64, 1000, 4096, 1 << 20]);
-        let concurrent = index % 8 == 0;
+        // Sub-batches are chosen by the run's own PRNG (not by index) so that
+        // every worker process gets the same mix.
+        let concurrent = rng.chance(1, 8);
         let mut phases = Vec::new();
         if concurrent {
             let max_threads = match tier {
                 Tier::Quick => 4,
                 Tier::Thorough => {
-                    if index % 64 == 0 {
+                    if rng.chance(1, 8) {
                         16
                     } else {
                         6
@@ -448,7 +450,7 @@ impl Harness for C19 {
             let n = match tier {
                 Tier::Quick => 1 + rng.below(6) as usize,
                 Tier::Thorough => {
-                    if index % 16 == 1 {
+                    if rng.chance(1, 16) {
                         50 + rng.below(450) as usize
                     } else {
                         1 + rng.below(6) as usize
